@@ -176,6 +176,45 @@ def r3_once_per_slot(r, facts):
                     if back is not None:
                         ok_edge = True
                         r.inst('loop test %s(%s,%s) edge %d' % (e[1], ra, rb, val), f.where(f.term_loc(b)))
+    def _distance(x):
+        """x is wrapping_sub(tail, head) over the counter locals"""
+        while x[0] == 'cast':
+            x = x[4]
+        if x[0] == 'call' and x[1] == 'core::num::<impl u32>::wrapping_sub' and len(x[2]) == 2:
+            return _is_local_in(x[2][0], tail_locals) and _is_local_in(x[2][1], head_all)
+        return False
+    if not ok_edge:
+        # `tail.wrapping_sub(head) != 0` as the per-iteration test
+        for b, blk in enumerate(f.blocks):
+            if blk['cleanup'] or blk['term']['k'] != 'switch':
+                continue
+            e = eb.operand(blk['term']['discr'])
+            if e[0] != 'bin' or e[1] not in ('Eq', 'Ne'):
+                continue
+            d, z = (e[2], e[3]) if e[3][0] == 'const' else (e[3], e[2])
+            if not (z[0] == 'const' and z[1] == 0 and _distance(d)):
+                continue
+            si = f.switch_info(b)
+            tgt = si['values'].get(1, si['otherwise']) if e[1] == 'Ne' else si['values'].get(0)
+            if tgt is not None and f.edge_dominates((b, tgt), p_loc) and f.forward_paths_hit([Loc(adv[0][0], adv[0][1])], [f.term_loc(b)]) is not None:
+                ok_edge = True
+                r.inst('loop test %s(wrapping_sub(tail, head), 0)' % e[1], f.where(f.term_loc(b)))
+    if not ok_edge:
+        # counted loop: `for _ in 0..tail.wrapping_sub(head)` runs the body exactly distance times
+        for loc, t in f.calls():
+            if (t.get('callee') or '') != 'std::iter::Iterator::next' or f.blocks[loc[0]]['cleanup']:
+                continue
+            it = eb.operand(t['args'][0])
+            rng = [x for x in subexprs(it) if x[0] == 'agg' and x[1].endswith('Range::Range') and len(x[3]) == 2]
+            if not rng or not (rng[0][3][0][0] == 'const' and rng[0][3][0][1] == 0 and _distance(rng[0][3][1])):
+                continue
+            some = None
+            for si in f.enum_switches('std::option::Option'):
+                if not si['place']['p'] and si['place']['l'] == t['dest']['l']:
+                    some = f.variant_edge(si, 'Some')
+            if some is not None and f.edge_dominates(some, p_loc) and f.forward_paths_hit([Loc(adv[0][0], adv[0][1])], [loc]) is not None:
+                ok_edge = True
+                r.inst('counted loop over 0..wrapping_sub(tail, head)', f.where(loc))
     r.require(ok_edge, 'Completions::poll/loop-test', 'the processing loop is not guarded, per iteration, by a head-vs-tail test excluding head == tail', f.where(p_loc))
     # tail values come from load_kernel_shared (Acquire; ORD of that function is checked in C04.R3 and here)
     lk = facts.fn(fam.LOAD_KERNEL_SHARED)
